@@ -181,11 +181,18 @@ class HedGroup:
                 group_list.append((child, child._sorted(update_self)))
 
         tag_list.sort(key=lambda x: str(x[0]))
-        group_list.sort(key=lambda x: str(x[0]))
+        # Order groups by their sorted contents, so equal groups are adjacent however their members were written.
+        group_list.sort(key=lambda x: (self._sorted_list_as_string(x[1]), str(x[0])))
         output_list = tag_list + group_list
         if update_self:
             self.children = [x[0] for x in output_list]
         return [x[1] for x in output_list]
+
+    @staticmethod
+    def _sorted_list_as_string(sorted_children):
+        """ Return the string form of a nested list returned by _sorted. """
+        return "(" + ",".join(str(child) if isinstance(child, HedTag) else HedGroup._sorted_list_as_string(child)
+                              for child in sorted_children) + ")"
 
     @property
     def is_group(self):
